@@ -7,12 +7,24 @@
    of processes run one after the other -- each one the fromCache load of every stack followed by
    any commands, user-tag commands included, dying or not before a database call or between a
    database call and the cache update that follows it -- by any users (cache directories) and
-   flavors, with cache files deleted at any moment, inside or outside processes.  [repaired] = the
-   code with the fixes proposed for this property (ProductFamily.removeVersion; order of the
-   fall-back flavor set-up in Eups.__init__; and, for user tags: Eups.assignTag writes into the
-   user's tag directory, cacheIsUpToDate looks into it, Eups.declare reads the tags of the new
-   version back, the cache files of ups_db carry nobody's user tags, _loadUserTags passes over chain
-   files whose version is gone); the pinned behaviours are kept as variants and refuted below.
+   flavors, with cache files deleted at any moment, inside or outside processes.
+
+   The variant record of the model has six switches.  Two of them (v_rm: ProductFamily.removeVersion;
+   v_init: order of the fall-back flavor set-up in Eups.__init__) are repairs that /repo has; the other
+   four (v_uloc, v_ustale, v_noread, v_shared) are the user-tag repairs of proposed_fixes/C07-user-tag-
+   location, -user-tag-staleness, -declare-reads-back-tags, -shared-cache-user-tags (with -load-user-tags-
+   skip, which has no switch), which /repo does NOT have: Eups.assignTag writes the chain file of a user
+   tag among the stack's own (open finding D42), and that cannot be repaired while tests/test_eups2.py::
+   testUserTags pins it; the other four only show once it is repaired.
+   [repaired] = all switches on the repaired side = /repo + proposed_fixes/C07-*.diff.
+   [tree_as_it_is] = v_rm and v_init repaired, the four user-tag switches pinned = /repo.
+
+   - The theorems about declarations and global tags are stated for [repaired] (whose histories include
+     user-tag commands) AND for any setting of the four user-tag switches, [tree_as_it_is] among them, over
+     the histories without user-tag commands ([reachable_nut]; *_whatever_the_user_tag_switches): those are
+     the statements that hold of /repo as it is.
+   - The theorems about user tags are stated for [repaired] only; of /repo as it is they are false:
+     user_tags_refuted_pinned_location.
 
    [q_cache m q] is the answer of an Eups whose product stacks are m (noCache=False), [q_db w q]
    the answer read from the version and chain files (noCache=True); queries: is a version
@@ -32,7 +44,7 @@
 From Eupsv Require Import Base.Base Model.Db Model.Cache.
 From Eupsv Require Import Proofs.DbLib Proofs.Db Proofs.DbInv Proofs.DbCor.
 From Eupsv Require Import Proofs.CacheLib Proofs.CacheWt Proofs.CacheRebuild Proofs.CacheEff Proofs.CacheU Proofs.CacheInv
-  Proofs.CacheLoad Proofs.CacheProc Proofs.CacheCor.
+  Proofs.CacheLoad Proofs.CacheProc Proofs.CacheCor Proofs.CacheNoU.
 
 (* ---------------------------------------------------------------- the property *)
 
@@ -44,7 +56,10 @@ Theorem coherent : forall tick, clock_strict tick -> forall w, reachable tick re
 Proof. intros tick CS w R u loc fl q Hu Hl Hq. apply coherent_load; assumption. Qed.
 Print Assumptions coherent.
 
-(* the same for user tags: whatever the history -- assignments, moves and removals of user tags by any
+(* [repaired] = /repo + proposed_fixes/C07-*.diff.  On /repo as it is this clause is refuted
+   (user_tags_refuted_pinned_location: open finding D42, not repairable while tests/test_eups2.py::testUserTags
+   pins the behaviour of Eups.assignTag / unassignTag).
+   The same for user tags: whatever the history -- assignments, moves and removals of user tags by any
    user, undeclarations of tagged versions by the same or another user and their redeclaration, deaths
    between the write in the tag directory and the cache update, deleted cache files -- a new process of
    user u answers every query about the user tags of u through its cache as the chain files of the tag
@@ -54,6 +69,25 @@ Theorem user_tags_coherent : forall tick, clock_strict tick -> forall w, reachab
   uq_cache (snd (load tick repaired w u u fl)) q = uq_db w u q.
 Proof. intros tick CS w R u fl q Hu Hq. apply ucoherent_load; assumption. Qed.
 Print Assumptions user_tags_coherent.
+
+(* /repo as it is: removeVersion and the flavor set-up repaired, the four user-tag switches pinned *)
+Definition tree_as_it_is : variant := mkVar false false true true true true.
+
+Example tree_as_it_is_base : base_repaired tree_as_it_is.
+Proof. split; reflexivity. Qed.
+
+(* the property for declarations and global tags, whatever the four user-tag switches (hence for /repo as it
+   is), over the histories that contain no user-tag command: every process then does what the repaired code
+   does, the tag directories stay empty *)
+Theorem coherent_whatever_the_user_tag_switches : forall tick, clock_strict tick ->
+  forall vr, base_repaired vr -> forall w, reachable_nut tick vr w ->
+  forall u loc fl q, u <> upsdb -> loc = u \/ loc = upsdb -> In (q_flavor q) (fallbacks fl) ->
+  q_cache (snd (load tick vr w loc u fl)) q = q_db w q.
+Proof.
+  intros tick CS vr B w R u loc fl q Hu Hl Hq. destruct (reachable_nut_repaired tick vr w B R) as [R' N].
+  rewrite (proj1 (load_nouc tick vr w loc u fl B N)). apply coherent_load; assumption.
+Qed.
+Print Assumptions coherent_whatever_the_user_tag_switches.
 
 (* the invariant behind both: in every reachable world every cache file, product by product,
    either agrees with the files -- the stack's records, and for the user tags the tag directory of
@@ -87,6 +121,18 @@ Proof.
   - eapply uolder_not_up_to_date; eassumption.
 Qed.
 Print Assumptions missing_or_older_is_not_believed.
+
+(* the first two cases do not depend on the switch of cacheIsUpToDate: missing, or older than the database,
+   is not believed on /repo as it is either *)
+Theorem missing_or_older_is_not_believed_whatever_the_switch : forall b w loc s nf f ps, In f nf ->
+  (pk_get w loc s f = None \/ (exists p, pk_get w loc s f = Some p /\ newer_than w s (pk_stamp p) = true)) ->
+  snd (try_cache b w loc s nf ps) = false.
+Proof.
+  intros b w loc s nf f ps Hf [H|[p [H1 H2]]]; apply (not_up_to_date_not_believed_any b w loc s nf f ps Hf).
+  - apply absent_not_up_to_date. exact H.
+  - eapply older_not_up_to_date; eassumption.
+Qed.
+Print Assumptions missing_or_older_is_not_believed_whatever_the_switch.
 
 (* ... and a cache that is not believed (in the user's directory nor in ups_db) is rebuilt: the
    stack is loaded with what the files say (the user tags: what the tag directory of the loading
@@ -122,7 +168,22 @@ Proof.
 Qed.
 Print Assumptions crash_between_db_and_cache_detected.
 
-(* the same when the command killed is a user-tag command (the write in the tag directory is done, the
+(* the same whatever the four user-tag switches, for commands that are not user-tag commands *)
+Theorem crash_detected_whatever_the_user_tag_switches : forall tick, clock_strict tick ->
+  forall vr, base_repaired vr -> forall w, reachable_nut tick vr w ->
+  forall p i g, p_user p <> upsdb -> (p_admin p = true -> p_ops p = []) -> forallb base_pop (p_ops p) = true ->
+  p_crash p = Some (i, g, true) ->
+  forall u loc fl q, u <> upsdb -> loc = u \/ loc = upsdb -> In (q_flavor q) (fallbacks fl) ->
+  q_cache (snd (load tick vr (run_proc tick vr w p) loc u fl)) q = q_db (run_proc tick vr w p) q.
+Proof.
+  intros tick CS vr B w R p i g Hp Ha Hb _ u loc fl q Hu Hl Hq.
+  apply coherent_whatever_the_user_tag_switches; try assumption. apply RN_proc; assumption.
+Qed.
+Print Assumptions crash_detected_whatever_the_user_tag_switches.
+
+(* [repaired] = /repo + proposed_fixes/C07-*.diff; on /repo as it is the user-tag clauses are refuted
+   (user_tags_refuted_pinned_location, D42) and this one in particular by user_tags_refuted_pinned_staleness.
+   The same when the command killed is a user-tag command (the write in the tag directory is done, the
    cache update is not), for the user tags of any user *)
 Theorem user_tag_crash_detected : forall tick, clock_strict tick ->
   forall w, reachable tick repaired w ->
@@ -137,16 +198,19 @@ Print Assumptions user_tag_crash_detected.
 (* the mechanism: a database call that changes anything leaves the product directory newer than
    every cache file of the stack, whoever wrote it; none of them is up to date afterwards *)
 Theorem db_update_outdates_cache_files : forall tick, clock_strict tick -> forall w, reachable tick repaired w ->
-  forall x l f p, compile (w_db w) x <> [] -> pk_get w l (act_stack x) f = Some p ->
+  forall b x l f p, compile (w_db w) x <> [] -> pk_get w l (act_stack x) f = Some p ->
   In (act_name x) (db_names (w_db (do_act tick w x)) (act_stack x)) ->
-  up_to_date false (do_act tick w x) l (act_stack x) f = false.
+  up_to_date b (do_act tick w x) l (act_stack x) f = false.
 Proof.
-  intros tick CS w R x l f p Ne Hp Hn. destruct (reachable_inv tick w CS R) as [I _].
+  intros tick CS w R b x l f p Ne Hp Hn. destruct (reachable_inv tick w CS R) as [I _].
   eapply act_outdates; eassumption.
 Qed.
 Print Assumptions db_update_outdates_cache_files.
 
-(* the mechanism for user tags: a write in the tag directory of user u leaves the product's directory
+(* [repaired] = /repo + proposed_fixes/C07-*.diff (cacheIsUpToDate with the switch on the repaired side, a
+   write that goes into the tag directory); on /repo as it is Eups.assignTag does not write there at all
+   (user_tags_refuted_pinned_location, D42).
+   The mechanism for user tags: a write in the tag directory of user u leaves the product's directory
    there newer than every cache file of u for the stack; none of them is up to date afterwards *)
 Theorem user_tag_update_outdates_own_cache_files : forall tick, clock_strict tick -> forall w, reachable tick repaired w ->
   forall u s n t f v f0 p, u <> upsdb -> pk_get w u s f0 = Some p -> In n (db_names (w_db w) s) ->
@@ -169,7 +233,10 @@ Proof.
 Qed.
 Print Assumptions write_through_follows_database.
 
-(* the write-through for user tags, of a database call (a declaration reads the user's chain files that
+(* [repaired] = /repo + proposed_fixes/C07-*.diff (read-back switch and location switch on the repaired side);
+   on /repo as it is the tag directory is not where Eups.assignTag writes (user_tags_refuted_pinned_location,
+   D42) and nothing is read back (user_tags_refuted_pinned_read_back).
+   The write-through for user tags, of a database call (a declaration reads the user's chain files that
    name the version back; an undeclaration takes his tags off the version in the tag directory and in
    the data) and of the two user-tag calls: user tags that agree with the tag directory before the
    call agree with it after *)
@@ -356,6 +423,30 @@ Example user_tags_refuted_pinned_location :
   q_cache (snd (load S pinned_uloc (w_uloc pinned_uloc) u1 u1 g)) (QTagged s1 a mine g) = AVer None /\
   uq_cache (snd (load S pinned_uloc (w_uloc pinned_uloc) u1 u1 g)) (UQTagged s1 a mine g) = AVer None.
 Proof. split; [unfold w_uloc; reach|]. vm_compute. repeat split. Qed.
+
+(* the same history on /repo as it is (all four user-tag switches pinned) *)
+Example user_tags_refuted_on_the_tree_as_it_is :
+  reachable S tree_as_it_is (w_uloc tree_as_it_is) /\
+  q_db (w_uloc tree_as_it_is) (QTagged s1 a mine g) = AVer (Some (lit "1.0")) /\
+  uq_files (w_uloc tree_as_it_is) u1 (UQTagged s1 a mine g) = AVer (Some (lit "1.0")) /\
+  uq_cache (snd (load S tree_as_it_is (w_uloc tree_as_it_is) u1 u1 g)) (UQTagged s1 a mine g) = AVer None.
+Proof. split; [unfold w_uloc; reach|]. vm_compute. repeat split. Qed.
+
+(* a history without user-tag commands, on /repo as it is: the hypotheses of the *_whatever_the_user_tag_switches
+   theorems are inhabited *)
+Example w_example_on_the_tree_as_it_is :
+  reachable_nut S tree_as_it_is
+    (delete_cache
+      (run_proc S tree_as_it_is
+         (run_proc S tree_as_it_is
+            (run_proc S tree_as_it_is w0 (P u1 L [decl L "1.0"; decl L "2.0"]))
+            (mkProc u2 false g [decl g "3.0"; undecl g "3.0"] (Some (1, 0, true))))
+         (Adm u1 L))
+      u1 s1 L).
+Proof.
+  apply RN_del. repeat (apply RN_proc; [discriminate|(intro; discriminate) || reflexivity|reflexivity|]).
+  apply RN_init. exact nodup_path.
+Qed.
 
 Example location_repaired :
   q_db (w_uloc repaired) (QTagged s1 a mine g) = AVer None /\
